@@ -176,6 +176,7 @@ def split_conds(glob, name, body, sig, pres, over, values, fixed=None, bounds=""
     for v in values:
         f = dict(fixed or {})
         f[over] = v
-        out.append(make_cond(glob, "%s_%s%s" % (name, over, v), body, sig, pres, fixed=f,
+        pres_v = [p.replace(over.upper(), repr(v)) for p in pres]   # OVER in a precondition = this value
+        out.append(make_cond(glob, "%s_%s%s" % (name, over, v), body, sig, pres_v, fixed=f,
                              bounds="%s [%s=%s]" % (bounds, over, v), **kw))
     return out
